@@ -32,6 +32,7 @@ def generate(IR, template, parseExpression):
                              flows=context["flows"],
                              converters=context["converters"],
                              gfs=context["gfs"],
+                             flowgfs=context["flowgfs"],
                              constants=context["constants"],
                              dimensions=context["dimensions"],
                              notmemoized=context["notmemoized"])
@@ -69,6 +70,7 @@ def build_context(IR, parseExpression):
             "converters": [],
             "constants": [],
             "gfs": [],
+            "flowgfs": [],
             "events": [],
             "specs": IR["specs"],
             "dimensions": IR["dimensions"],
@@ -111,6 +113,9 @@ def build_context(IR, parseExpression):
                 if entity_type == "stock" or entity_type =="flow":
 
                     context[entity_type + "s"] += [ent]
+
+                    if entity_type == "flow" and len(entity["gf"]) > 0: # points of a flow defined by a graphical function
+                        context["flowgfs"] += [{"name": name, "points": entity["gf"]}]
 
                 # Aux
                 elif entity_type == "aux":
